@@ -91,6 +91,7 @@ type plScenario struct {
 	Hooks      string // which verif yield points park: "" = pack.computed + barrier.signal, "all" = every hook
 	Bound      *int // deviation bound override for this scenario
 	DelayPartitionOnTarget bool // downstream partition id appears only when the create-partition event is applied
+	ParkTargetInStart bool // the downstream lookups made by StartReadCollection are scheduling points (check-then-act window of the duplicate-start handling)
 }
 
 func (sc *plScenario) retryTimes() int {
@@ -109,6 +110,7 @@ type plTarget struct {
 	mu    sync.Mutex
 	colls map[string]*model.CollectionInfo // "db/name"
 	calls []string
+	park  func(name string) // optional scheduling hook, called outside the lock
 }
 
 func (t *plTarget) key(db, name string) string {
@@ -119,6 +121,9 @@ func (t *plTarget) key(db, name string) string {
 }
 
 func (t *plTarget) GetCollectionInfo(ctx context.Context, name, db string) (*model.CollectionInfo, error) {
+	if t.park != nil {
+		t.park(name)
+	}
 	t.mu.Lock()
 	defer t.mu.Unlock()
 	t.calls = append(t.calls, "GetCollectionInfo:"+name)
@@ -348,6 +353,7 @@ type plRun struct {
 	clockLeft   int
 	wrapped     map[*replicateChannelHandler]bool
 	inAddPart   map[int64]bool
+	inStart     map[int64]string // goroutine id -> driver name, while the driver is inside StartReadCollection
 }
 
 var plExecSeq int
@@ -394,10 +400,17 @@ func plExecute(t *testing.T, sc *plScenario, ctl *sched.Ctl) *plRun {
 	pool := conc.NewPool[struct{}](10)
 	replicatePool = pool
 	r := &plRun{sc: sc, ctl: ctl, srcByID: map[string]*plSrcMsg{}, outs: map[string][]*api.ReplicateMsg{}, delivered: map[string]int{},
-		driverErr: map[string]error{}, driverDone: map[string]bool{}, wrapped: map[*replicateChannelHandler]bool{}, inAddPart: map[int64]bool{}, replicateID: fmt.Sprintf("rid%d", plExecSeq), clockLeft: sc.Clock}
+		driverErr: map[string]error{}, driverDone: map[string]bool{}, wrapped: map[*replicateChannelHandler]bool{}, inAddPart: map[int64]bool{}, inStart: map[int64]string{}, replicateID: fmt.Sprintf("rid%d", plExecSeq), clockLeft: sc.Clock}
 	r.mq = fakemq.New(plSched{r})
 	r.mq.ParkRegister = sc.ParkRegister
 	r.target = &plTarget{colls: map[string]*model.CollectionInfo{}}
+	if sc.ParkTargetInStart {
+		r.target.park = func(name string) {
+			if drv, ok := r.inStart[schedGoid()]; ok {
+				ctl.Point("drv:"+drv, "target-lookup", false)
+			}
+		}
+	}
 	mo := &plMetaOp{colls: map[int64]*plColl{}}
 	seq := 0
 	for _, c := range sc.Colls {
@@ -473,7 +486,9 @@ func plExecute(t *testing.T, sc *plScenario, ctl *sched.Ctl) *plRun {
 						seek = append(seek, &msgpb.MsgPosition{ChannelName: pc, MsgID: []byte("start-" + pc), Timestamp: plTs(c.SeekMs, 0)})
 					}
 				}
+				r.inStart[schedGoid()] = name
 				err = r.mgr.StartReadCollection(tctx, &model.DatabaseInfo{ID: 1, Name: c.DB}, c.info(), seek, nil)
+				delete(r.inStart, schedGoid())
 			case "addpart":
 				r.wrapHandlers()
 				r.inAddPart[schedGoid()] = true
